@@ -38,6 +38,14 @@ PT0 == UNION {{Thr(k, InsertAt(<<a, K0>>, q, x)) : k \in 1..3, q \in 1..3} : x \
 CostlyX == {Thr(2, <<K0, K0, K0>>), Or(K0, K0, 1, 1), And(K0, L("sha256", 1)), L("sha256", 1), L("older", 10)}
 OrAnd0 == UNION {{Or(And(K0, x), z, o[1], o[2]), Or(And(x, K0), z, o[1], o[2]), Or(z, And(K0, x), o[1], o[2]), Or(z, And(x, K0), o[1], o[2])}
                  : x \in CostlyX, z \in {K0, L("older", 10)}, o \in Odds}
+\* two hash locks of the SAME kind with different images, for each of the four kinds (they must
+\* stay distinct through the compiler's caches and the taproot leaf enumeration)
+HashKinds == {"sha256", "hash256", "ripemd160", "hash160"}
+HashPairs0 == UNION {{Or(And(K0, L(h, 1)), And(K0, L(h, 2)), 1, 1),
+                      Thr(3, <<K0, K0, L(h, 1), L(h, 2)>>),
+                      Thr(2, <<K0, And(K0, L(h, 1)), And(K0, L(h, 2))>>),
+                      And(K0, Or(L(h, 1), L(h, 2), 1, 1)),
+                      Or(And(K0, L(h, 1)), And(K0, L("sha256", 1)), 1, 1)} : h \in HashKinds}
 RECURSIVE Relab(_, _)
 RECURSIVE RelabSeq(_, _, _, _)
 RelabSeq(xs, q, nxt, acc) ==
@@ -47,7 +55,7 @@ Relab(P, nxt) ==
   IF P.p = "key" THEN [p |-> L("key", nxt), nxt |-> nxt + 1]
   ELSE IF Len(P.xs) = 0 THEN [p |-> P, nxt |-> nxt]
   ELSE LET r == RelabSeq(P.xs, 1, nxt, <<>>) IN [p |-> [P EXCEPT !.xs = r.xs], nxt |-> r.nxt]
-PT == {Relab(P, 1).p : P \in PT0 \cup OrAnd0}
+PT == {Relab(P, 1).p : P \in PT0 \cup OrAnd0 \cup HashPairs0}
 
 RECURSIVE KeysOfP(_)
 RECURSIVE KeysOfPS(_, _)
